@@ -522,6 +522,11 @@ func c13TqSchedule(t *testing.T, s *VStream, stats *VStats, nkeys int, body func
 		}
 		synctest.Wait()
 		sc.pool.Close()
+		// a convoy whose queue the table lost track of (only possible when the protocol is broken — the
+		// stream has already recorded that) would stay blocked past the bubble's end: wake it explicitly
+		for _, q := range sc.queues {
+			q.close()
+		}
 		synctest.Wait()
 	})
 }
